@@ -306,6 +306,9 @@ def gen_ctor(g, k):
         c.append("ctor 9 %s" % tok([g.u(32), g.u(32), g.u(32), hx(g.rb(n))]))
         c.append("ctor 17 %s" % tok([g.r.choice([1, 8, 40, 48]), 1, hx(g.rb(n))]))
         c.append("ctor 6 %s" % g.areas(n))
+    for _ in range(3):                                    # VBE blocks from the types' Default impls (all zero)
+        c.append("ctor 7 %s" % tok([g.u(16), g.u(16), g.u(16), g.u(16), hx(bytes(512)), hx(bytes(256))]))
+    c.append("ctor 7 %s" % tok([1, 2, 3, 4, hx(bytes(512)), hx(g.rb(27) + b"\x03" + g.rb(228))]))
     for n in list(range(0, 8)) + [20]:                    # EFIMemoryMapTag::new_from_descs: n descriptors
         c.append("ctor 23 %s" % lst(lst([g.u(32), g.u(64), g.u(64), g.u(64), g.u(64)]) for _ in range(n)))
     per = {3: 40, 4: 25, 5: 25, 6: 25, 7: 40, 8: 60, 9: 90, 10: 25, 11: 15, 12: 15, 13: 20, 14: 60, 15: 80, 16: 10,
